@@ -92,7 +92,7 @@ impl Property for C04 {
         "exploration"
     }
     fn rule(&self) -> String {
-        "A case = 1-3 sessions connected to one secure server (fresh token each), per session and direction a pool of 300-1500 genuine payload datagrams produced by generate_payload_packet with the send counter preset to natural, 300, 256k-3, 2^32-5, 2^56-3, 2^63 or 2^64-5001; then a history of presentations whose sequence is chosen relative to the highest accepted one (next, max+k, max, max-1, max-255, max-256, max-257, max-256k, random) and whose form is genuine first-time, replay, bit-flipped / truncated / extended / prefix-modified copy, re-addressed to another session's endpoint or source address, presented in the other direction, or re-sealed with the session's own key under another protocol id or with another session's key. Model per session and direction = set of accepted sequences and their maximum (initialised with the replay-protected handshake packets). Oracles: a payload surfaces only from an unmodified genuine datagram of that session and direction, equals the bytes given to generate_payload_packet, carries that session's client id, and no datagram surfaces twice; an unmodified genuine datagram presented for the first time while less than 256 behind the highest accepted sequence must surface, also after rejected forgeries carrying the same sequence. A fifth of the cases instead drive the replay window structure itself (hook re-export) with 50-1500 sequence numbers chosen around the highest accepted one at magnitudes up to 2^64-2001 and compare already_received with the reference rule (reject iff accepted before or >= 256 behind). Non-trivial: a replay of an accepted datagram, presentations exactly 255 and 256 behind, and a forged copy presented before its genuine original. Distinct = hash of the decoded operation trace.".into()
+        "A case = 1-3 sessions connected to one secure server (fresh token each), per session and direction a pool of 300-1500 genuine datagrams - payloads produced by generate_payload_packet and, in some cases, the endpoint's own keep-alives interleaved with them (same counter, same replay window) - with the send counter preset to natural, 300, 256k-3, 2^32-5, 2^56-3, 2^63 or 2^64-5001; then a history of presentations whose sequence is chosen relative to the highest accepted one (next, max+k, max, max-1, max-255, max-256, max-257, max-256k, random) and whose form is genuine first-time, replay, bit-flipped / truncated / extended / prefix-modified copy, re-addressed to another session's endpoint or source address, presented in the other direction, or re-sealed with the session's own key under another protocol id or with another session's key. Model per session and direction = set of accepted sequences and their maximum (initialised with the replay-protected handshake packets). Oracles: a payload surfaces only from an unmodified genuine datagram of that session and direction, equals the bytes given to generate_payload_packet, carries that session's client id, and no datagram surfaces twice; an unmodified genuine datagram presented for the first time while less than 256 behind the highest accepted sequence must surface, also after rejected forgeries carrying the same sequence. A fifth of the cases instead drive the replay window structure itself (hook re-export) with 50-1500 sequence numbers chosen around the highest accepted one at magnitudes up to 2^64-2001 and compare already_received with the reference rule (reject iff accepted before or >= 256 behind). Non-trivial: a replay of an accepted datagram, presentations exactly 255 and 256 behind, and a forged copy presented before its genuine original. Distinct = hash of the decoded operation trace.".into()
     }
     fn assumptions(&self) -> Vec<String> {
         vec![
@@ -105,7 +105,7 @@ impl Property for C04 {
         PbtCfg { cases: tier.pick(30_000, 400_000), max_len: tier.pick(1200, 4000), shrink_ms: 120_000 }
     }
     fn required_labels(&self) -> Vec<&'static str> {
-        vec!["replay_of_accepted", "behind_255", "behind_256", "forged_before_genuine", "genuine_after_forgery", "readdressed", "other_protocol", "other_key", "wide_sequence", "out_of_order_accept", "replay_window_model"]
+        vec!["replay_of_accepted", "behind_255", "behind_256", "forged_before_genuine", "genuine_after_forgery", "readdressed", "other_protocol", "other_key", "wide_sequence", "out_of_order_accept", "replay_window_model", "keepalive_interleaved", "keepalive_presented"]
     }
     fn run_choices(&self, ctx: &mut Ctx) -> Outcome {
         if ctx.src.chance(50) {
@@ -150,7 +150,30 @@ impl Property for C04 {
                 }
                 let mut dids = vec![];
                 let mut base = 0;
+                // in some cases the endpoint's own keep-alives (emitted after 300 ms without sending) are interleaved with the payloads:
+                // they share the send counter and the peer's replay window with them
+                let interleave = ctx.src.chance(110);
                 for k in 0..pool_n {
+                    if interleave && k % 23 == 11 {
+                        let ka = if to_client {
+                            nw.now += Duration::from_millis(300);
+                            nw.server_advance(0, Duration::from_millis(300));
+                            match nw.server_update_client(0, id) {
+                                SrvOut::Send { did, .. } => Some(did),
+                                _ => None,
+                            }
+                        } else {
+                            nw.client_update(i, Duration::from_millis(300))
+                        };
+                        if let Some(did) = ka {
+                            if nw.pool[did].kind != 4 || nw.pool[did].seq != base + k as u64 {
+                                return Err(Fail::new("sequence_not_consecutive", format!("keep-alive after payload packet {k}: kind {} sequence {} (first {base})", nw.pool[did].kind, nw.pool[did].seq)));
+                            }
+                            dids.push(did);
+                            ctx.label("keepalive_interleaved");
+                            continue;
+                        }
+                    }
                     let len = match k % 50 {
                         0 => 0,
                         1 => 1300,
@@ -218,6 +241,23 @@ impl Property for C04 {
                 }
             };
             let (vname, surfaced) = match variant {
+                0 if d.kind == 4 => {
+                    // a genuine keep-alive of the lane: never surfaces anything, but is recorded in the replay window like a payload
+                    let first = nw.pool[did].presented == 0;
+                    let lane = &lanes[s][li];
+                    let fresh = first && !lane.accepted.contains(&seq) && lane.within_window(seq);
+                    nw.pool[did].presented += 1;
+                    if let Some((cid, p)) = present(&mut nw, s, to_client, s, &d.bytes) {
+                        return Err(Fail::new("keepalive_surfaced", format!("a keep-alive surfaced a payload of {} bytes under client id {cid}", p.len())));
+                    }
+                    if fresh {
+                        let lane = &mut lanes[s][li];
+                        lane.accepted.insert(seq);
+                        lane.max = Some(lane.max.map(|m| m.max(seq)).unwrap_or(seq));
+                        ctx.label("keepalive_presented");
+                    }
+                    ("keepalive", false)
+                }
                 0 => {
                     // the unmodified genuine datagram (first time or replay)
                     let first = nw.pool[did].presented == 0;
@@ -350,6 +390,10 @@ impl Property for C04 {
                     // instead: prefix kind changed on the genuine bytes (payload -> keep-alive / disconnect)
                     let mut b = d.bytes.clone();
                     b[0] = (b[0] & 0xF0) | ctx.src.pick(&[4u8, 6, 1, 2, 3]);
+                    if b == d.bytes {
+                        // a keep-alive of the pool keeps its kind: that is the genuine datagram, not a forgery
+                        continue;
+                    }
                     if nw.pool[did].presented == 0 {
                         lanes[s][li].forged_first[idx] = true;
                     }
